@@ -4,8 +4,14 @@ import CnbVerif.Props.C19
 #print axioms CnbVerif.C19.tee_full_input
 #print axioms CnbVerif.C19.tee_full_input_short_writes
 #print axioms CnbVerif.C19.mapped_output_short_writes
+#print axioms CnbVerif.C19.mapped_output_independent_of_flushes
+#print axioms CnbVerif.C19.flushes_change_nothing
+#print axioms CnbVerif.C19.tee_full_input_with_flushes
+#print axioms CnbVerif.C19.compositions_independent_of_flushes
+#print axioms CnbVerif.C19.emitting_flush_violates_spec
 #print axioms CnbVerif.C19.unfixed_drop_violates_spec
 #print axioms CnbVerif.C19.copier_threads_spawned_before_joined
+#print axioms CnbVerif.C19.copiers_are_plain_io_copy
 #print axioms CnbVerif.C19.progress
 #print axioms CnbVerif.C19.termination
 #print axioms CnbVerif.C19.delivery
